@@ -1,6 +1,7 @@
 package main
 
 import (
+	"testing/iotest"
 	"bytes"
 	"encoding/binary"
 	"encoding/pem"
@@ -88,6 +89,12 @@ func init() {
 		switch a[1] {
 		case "read":
 			db, err = signature.ReadSignatureDatabase(bytes.NewReader(in))
+		case "read-onebyte": // io.Reader contracts: a reader may return fewer bytes than asked for
+			db, err = signature.ReadSignatureDatabase(iotest.OneByteReader(bytes.NewReader(in)))
+		case "read-half":
+			db, err = signature.ReadSignatureDatabase(iotest.HalfReader(bytes.NewReader(in)))
+		case "read-dataerr": // ... or the last bytes together with io.EOF
+			db, err = signature.ReadSignatureDatabase(iotest.DataErrReader(bytes.NewReader(in)))
 		case "unmarshal":
 			err = db.Unmarshal(bytes.NewBuffer(in))
 		case "readlist": // ReadSignatureList repeatedly, the way callers of the list API do
@@ -267,7 +274,9 @@ func sigFixtures() map[string][]byte {
 	return out
 }
 
-func decodeEntries(rng *rand.Rand) string { return pick(rng, []string{"read", "unmarshal", "readlist"}) }
+func decodeEntries(rng *rand.Rand) string {
+	return pick(rng, []string{"read", "read", "unmarshal", "unmarshal", "readlist", "readlist", "read-onebyte", "read-half", "read-dataerr"})
+}
 
 func (c *Ctx) evalDecode(op, class string, in []byte, entry string, match map[string]string) string {
 	o := c.Impl("db_decode", hx(in), entry)
@@ -287,11 +296,11 @@ func (c *Ctx) evalDecode(op, class string, in []byte, entry string, match map[st
 
 func init() {
 	checkers["C07"] = checker{
-		rule: "streams from a grammar generator (0..n lists; X.509 lists with any certificate size incl. empty data and any count incl. zero, incl. entries whose bytes are PEM text; SHA-256 lists; externally managed lists; any owners; any order), the repository's .esl files and captured variables, and databases built through Append/Remove/AppendList; each stream is decoded by the implementation (ReadSignatureDatabase, Unmarshal, repeated ReadSignatureList) in the sandboxed worker and R_C07 (extracted) requires exactly the model's lists and a byte-identical re-encoding, and for operation-built databases (extracted check_c07_built) that the lists the implementation holds encode per the layout to a stream that decodes to an equal database; non-trivial = the model decodes at least one list; distinct by input hash",
+		rule: "streams from a grammar generator (0..n lists; X.509 lists with any certificate size incl. empty data and any count incl. zero, incl. entries whose bytes are PEM text; SHA-256 lists; externally managed lists; any owners; any order), the repository's .esl files and captured variables, and databases built through Append/Remove/AppendList; each stream is decoded by the implementation (ReadSignatureDatabase over a byte reader and over readers that return one byte, half of the request, or data together with EOF; Unmarshal; repeated ReadSignatureList) in the sandboxed worker and R_C07 (extracted) requires exactly the model's lists and a byte-identical re-encoding, and for operation-built databases (extracted check_c07_built) that the lists the implementation holds encode per the layout to a stream that decodes to an equal database; non-trivial = the model decodes at least one list; distinct by input hash",
 		run:  runC07,
 	}
 	checkers["C08"] = checker{
-		rule: "byte strings near the well-formed language: every truncation point of valid streams (exhaustive per stream), edits of ListSize/HeaderSize/SignatureSize to 0, 15, 16, 27, 28, non-multiples, larger than the data and 2^32-1, unsupported and unknown signature types, trailing garbage; R_C08 (extracted) accepts an implementation success only when the model decodes the same lists from the whole input; non-trivial = mutated input on which the verdict is not trivially 'both reject an empty input' (counted when the input is non-empty); distinct by input hash",
+		rule: "byte strings near the well-formed language: every truncation point of valid streams (exhaustive per stream), edits of ListSize/HeaderSize/SignatureSize to 0, 15, 16, 27, 28, non-multiples, larger than the data and 2^32-1, unsupported and unknown signature types, trailing garbage, and streams of 2^12..2^22 bytes whose list boundary falls exactly on the power of two followed by a list, garbage or a truncated list; R_C08 (extracted) accepts an implementation success only when the model decodes the same lists from the whole input; non-trivial = mutated input on which the verdict is not trivially 'both reject an empty input' (counted when the input is non-empty); distinct by input hash",
 		run:  runC08,
 	}
 }
@@ -417,5 +426,25 @@ func runC08(c *Ctx) {
 			m[p+16+rng.Intn(12)] ^= 1 << uint(rng.Intn(8))
 		}
 		c.evalDecode("c08_decode", class, m, decodeEntries(rng), match(class))
+	}
+	// large streams whose list boundary falls exactly on a power of two (where
+	// buffer sizes and read limits live), followed by another list, by garbage
+	// and by a truncated list
+	ks := []int{12, 16, 20}
+	if !c.Quick() {
+		ks = []int{10, 12, 13, 15, 16, 17, 20, 21, 22}
+	}
+	for _, k := range ks {
+		total := 1 << uint(k)
+		owner := make([]byte, 16)
+		first := encList(gX509, uint32(total), 0, uint32(total-28), nil, [][]byte{append(owner, randBytes(rng, total-28-16)...)})
+		next, _ := genWfList(rng, 40)
+		class := fmt.Sprintf("boundary-2^%d", k)
+		c.evalDecode("c08_decode", class+"/exact", first, "read", match(class))
+		c.evalDecode("c08_decode", class+"/then-list", append(append([]byte{}, first...), next...), "read", match(class))
+		c.evalDecode("c08_decode", class+"/then-garbage", append(append([]byte{}, first...), randBytes(rng, 1+rng.Intn(27))...), "read", match(class))
+		if len(next) > 30 {
+			c.evalDecode("c08_decode", class+"/then-truncated-list", append(append([]byte{}, first...), next[:len(next)-1-rng.Intn(len(next)-29)]...), "read", match(class))
+		}
 	}
 }
